@@ -174,10 +174,17 @@ def explore(res, rng, n):
                 fail(res, 'first column is not the normalised alignment vector', cased, Bd[:, 0].tolist())
             if not np.allclose(Jd @ M, Bd, atol=1e-8):
                 fail(res, 'J A != B', cased, (Jd @ M).tolist())
-        B, J = utils.gramSchmidOrth(M.tolist(), v.tolist())
+        try:
+            B, J = utils.gramSchmidOrth(M.tolist(), v.tolist())
+        except Exception as e:  # noqa
+            fail(res, 'Gram-Schmidt raised on a full-rank matrix and an independent non-zero alignment vector: ' + type(e).__name__ + ' ' + str(e)[:80],
+                 {'A': M.tolist(), 'alignVec': v.tolist()}, None)
+            continue
         B, J = np.array(B), np.array(J)
         res.evaluations += 1
         res.stat('gram_schmidt' + ('' if sc == 1.0 else '_scaled'))
+        if np.any(v == 0):
+            res.stat('gram_schmidt_alignment_with_zero_component')
         case = {'A': M.tolist(), 'alignVec': v.tolist()}
         if not np.allclose(B.T @ B, np.eye(d), atol=1e-9):
             fail(res, 'Gram-Schmidt columns not orthonormal', case, (B.T @ B).tolist())
